@@ -79,3 +79,16 @@ Theorem C29_rescan_exact :
   NoDup (explorer_run decompress crc (history ++ [files])).
 Proof. exact rescan_exact. Qed.
 Print Assumptions C29_rescan_exact.
+
+(* chronicler Load self-heal (a compaction entry point of its own): a chronicler created without
+   a name, or with the file's name, rewrites the file as V3 under the name the old file carried *)
+Theorem C29_load_selfheal_keeps_name :
+  forall (compress : list N -> list N) (decompress : list N -> option (list N)) (crc : list N -> N),
+  (forall x, decompress (compress x) = Some x) ->
+  forall hm cname fname live st' rs f,
+  cname = [] \/ cname = fname ->
+  brun compress true init (selfheal_ops cname fname live) = (st', ROk :: rs) -> s_file st' = Some f ->
+  f_ver f = Version3 /\ read_swamp_name decompress crc (render compress crc hm f) = Some fname /\
+  (fname <> [] -> scan_name decompress crc (render compress crc hm f) = Some fname).
+Proof. exact selfheal_keeps_name. Qed.
+Print Assumptions C29_load_selfheal_keeps_name.
